@@ -2,7 +2,7 @@
 import collections, re
 from . import sexpr as S
 from .gen import G, hx, mutate, pad_image
-from .props import (Prop, PROPS, kind_of, toks, entry_of, input_of, member_type, ok_str, err_str, ser, view_of,
+from .props import (uw_of, bufspecs, Prop, PROPS, kind_of, toks, entry_of, input_of, member_type, ok_str, err_str, ser, view_of,
                     gen_parse_inputs, gen_parse_mixed, gen_builds, ALL_LEAVES, ENTRY_MIN, ENTRY_PT, PT_ENTRY,
                     canon_fir_view, canon_fir_bytes, writes_of, size_n, entry_for_member, has_bad_token, perr_of,
                     hdr_of_view, classes_of, big_members, sdes_pad_sweep, carry_tiles, version_tiles, rpsi_pb_sweep, fmt_sweep,
@@ -510,11 +510,34 @@ class C13(Prop):
                 pl = 'parse app %s' % hx(pad_image(img, p))
                 self.pairs[pl] = (base, p)
                 out.append(pl)
+        # the public padding reader (and its siblings) called directly, on exact, longer and shorter slices
+        out += [l for l in helper_cases() if l.startswith('helper phdr ')]
+        # padding requested from a builder at any point of its call history (before or after owned / borrowed
+        # setters): the written packet parses with that padding and the configured contents
+        out += [l for l in history_cases(g, n // 4, ['sr', 'rr', 'app', 'bye', 'sdes', 'fb']) if kind_of(l) == 'hist']
         return out
     def relevant(self, line, impl, model):
+        if kind_of(line) == 'hist':
+            return ok_str(impl.get('size')) or ok_str(model.get('size'))
+        if kind_of(line) == 'helper':
+            return True
         return kind_of(line) == 'parse' and entry_of(line) in ('sr', 'rr', 'app', 'bye', 'sdes', 'tfb', 'pfb', 'packet', 'compound')
     def proj(self, line, obs):
+        if kind_of(line) == 'helper':
+            return obs.get('w')
+        if kind_of(line) == 'hist':
+            return (obs.get('size'), canon_fir_view(obs.get('rt.r')), canon_fir_view(obs.get('rt.items')))
         return (obs.get('r'), obs.get('items') if entry_of(line) == 'compound' else None)
+    def oracle(self, line, impl, model):
+        if kind_of(line) == 'hist':
+            if not ok_str(impl.get('size')) or 'rt.items' in model:
+                return []
+            got, want = canon_fir_view(impl.get('rt.r')), canon_fir_view(model.get('spec.view'))
+            if got != want:
+                return ['the packet written after this call history parses as %s, the configuration is %s'
+                        % ((got or 'rejected')[:200], (want or '')[:200])]
+            return []
+        return helper_oracle(line, impl) if kind_of(line) == 'helper' else []
     def nontrivial(self, line, impl):
         return line in self.pairs
     def companions(self, line):
@@ -637,7 +660,12 @@ class C14(Prop):
                  'compound 2 fb t 4 1 2 nack 1 5 bye 0 0 -', 'compound 2 fb p 4 1 2 pli bye 0 0 -',
                  'compound 2 fb p 8 1 2 fir 1 9 9 rr 0 1 0', 'compound 2 fb p 4 1 2 rpsi 96 0102 0 rr 0 1 0',
                  'compound 2 compound 2 rr 0 1 0 fb t 4 1 2 nack 1 5 bye 0 0 -',
-                 'compound 2 rr 0 1 0 fb t 4 1 2 nack 1 5', 'compound 2 rr 0 1 0 fb p 252 1 2 pli']
+                 'compound 2 rr 0 1 0 fb t 4 1 2 nack 1 5', 'compound 2 rr 0 1 0 fb p 252 1 2 pli',
+                 # a padded member that is not the last member, followed only by empty (zero-size) compounds
+                 'compound 3 rr 0 1 0 bye 4 0 - compound 0', 'compound 2 bye 4 0 - compound 0',
+                 'compound 2 bye 4 0 - compound 1 compound 0', 'compound 2 compound 2 bye 4 0 - compound 0 rr 0 1 0',
+                 'compound 3 compound 0 rr 4 1 0 compound 0', 'compound 2 compound 0 bye 4 0 -',
+                 'compound 3 rr 0 1 0 compound 0 bye 0 0 -']
         for c in fixed:
             line = 'build e0:aa,e0:55 ' + c
             out.append(line)
@@ -651,7 +679,7 @@ class C14(Prop):
             return ()
         return (obs.get('size'), obs.get('get_padding'),
                 tuple((r, b) for r, b in writes_of(obs.get('writes'))), res_shape(obs.get('rt.r')),
-                tuple(item_shape(x) for x in (S.parse(obs.get('rt.items', '()')) or [])))
+                tuple(item_shape(x) for x in (S.parse(obs.get('rt.items', '()')) or [])), uw_of(obs.get('uw')))
     def nontrivial(self, line, impl):
         return member_type(line) == 'compound'
     def companions(self, line):
@@ -669,6 +697,14 @@ class C14(Prop):
             if q and w and q[0] != w[0]:
                 fails.append('built with a size query after every add_packet the compound writes %s %s, without queries %s %s'
                              % (q[0][0], (q[0][1] or b'').hex()[:120], w[0][0], (w[0][1] or b'').hex()[:120]))
+        u, w = uw_of(impl.get('uw')), writes_of(impl.get('writes'))
+        if u and w and member_type(line) == 'compound' and ok_str(impl.get('size')) and w[0][1] is not None:
+            # write_into_unchecked called directly on a buffer 8 bytes longer than the size: the members still get
+            # exact sub-slices, so the bytes are the same concatenation of the members' images
+            n = size_n(impl['size'])
+            if u[0] != '(ok %d)' % n or u[1][:n] != w[0][1][:n]:
+                fails.append('write_into_unchecked on a longer buffer returned %s and wrote %s, write_into writes %s'
+                             % (u[0], u[1][:n].hex()[:120], w[0][1][:n].hex()[:120]))
         return fails
     def group_oracle(self, recs):
         by = {l: a for l, a, m in recs}
@@ -862,6 +898,15 @@ class C16(Prop):
                 'build - compound 2 compound 1 rr 4 1 0 bye 0 0 -', 'build - compound 2 unk 4 199 0 - bye 0 0 -',
                 'build - compound 2 custom 199 4 0 4 - bye 0 0 -', 'build - compound 2 sdes 4 0 bye 0 0 -',
                 'build - compound 2 app 4 1 0 - - bye 0 0 -', 'build - compound 2 sr 4 1 0 0 0 0 0 bye 0 0 -']
+        # a prefix set on a non-PRIV item is documented to have no effect: any length is representable
+        for ty in (1, 2, 7, 9, 255):
+            for pl in (1, 254, 255, 256, 300):
+                out.append('build - sdes 0 1 7 1 %d %s 61' % (ty, '70' * pl))
+        # nested compounds whose padded tail sits in a non-last position of the outer compound, and whose only
+        # followers are empty compounds
+        out += ['build - compound 2 compound 2 rr 0 1 0 bye 4 0 - sdes 0 0', 'build - compound 2 compound 1 bye 4 0 - rr 0 1 0',
+                'build - compound 3 rr 0 1 0 bye 4 0 - compound 0', 'build - compound 2 compound 2 bye 4 0 - compound 0 rr 0 1 0',
+                'build - compound 2 bye 4 0 - compound 1 compound 0', 'build - compound 2 compound 2 rr 0 1 0 bye 4 0 - compound 0']
         # a rule checked against the wrong operand or hidden by a later rounding: overrun vs string length, unaligned
         # padding together with a reason / data / items
         for ln in (2, 3, 4, 32, 40):
@@ -934,6 +979,15 @@ def helper_cases():
         out.append('helper hdr 199 0 0 a%d:55' % ln)
     for p in range(0, 256):
         out.append('helper chk %d' % p)
+    # the public header readers on slices that are exact, longer than the packet (a receive buffer, the rest of a
+    # compound) and cut short
+    pk = [bytes.fromhex('a0c9000200000009' + '00000004'), bytes.fromhex('80cb0000'), bytes.fromhex('a1cb000201020304' + '00000004'),
+          bytes.fromhex('bfc70003' + '0102030405060708' + '00000008'), bytes.fromhex('a0cc0004' + '00000001' + '6e616d65' + '01020300' + '00000008')]
+    for b in pk:
+        for tail in (b'', bytes.fromhex('80cb0000'), bytes.fromhex('ffffffffffffff07'), bytes(1500 - len(b))):
+            out.append('helper phdr %s' % hx(b + tail))
+        for cut in (1, 2, 4, len(b) - 3, len(b) - 1, len(b)):
+            out.append('helper phdr %s' % hx(b[:len(b) - cut]))
     return out
 
 def helper_oracle(line, impl):
@@ -943,6 +997,21 @@ def helper_oracle(line, impl):
         p = int(t[2])
         want = '(ok unit)' if p % 4 == 0 else '(err (InvalidPadding #%x))' % p
         return [] if ser(w) == want else ['check_padding(%d) returned %s, expected %s' % (p, ser(w)[:80], want)]
+    if t[1] == 'phdr':
+        b = S.hexbytes('x' + t[2]) if t[2] != '-' else b''
+        if not (isinstance(w, list) and len(w) == 7):
+            return ['malformed helper observation']
+        fails = []
+        if len(b) >= 4:
+            ln = 4 * ((b[2] << 8 | b[3]) + 1)
+            want = [('version', '(ok #%x)' % (b[0] >> 6)), ('padding bit', '(ok %s)' % ('true' if b[0] & 0x20 else 'false')),
+                    ('padding', None if (b[0] & 0x20 and ln > len(b)) else ('(ok (some #%x))' % b[ln - 1] if b[0] & 0x20 else '(ok none)')),
+                    ('count', '(ok #%x)' % (b[0] & 31)), ('packet type', '(ok #%x)' % b[1]), ('length', '(ok %d)' % ln),
+                    ('ssrc', '(ok #%x)' % int.from_bytes(b[4:8], 'big') if len(b) >= 8 else None)]
+            for (name, wv), got in zip(want, w):
+                if wv is not None and ser(got) != wv:
+                    fails.append('parse_%s on %s.. (%d bytes) returned %s, the header says %s' % (name.replace(' ', '_'), b[:8].hex(), len(b), ser(got), wv))
+        return fails
     ls, fill = t[-1].split(':')
     ln, fill = int(ls[1:]), int(fill, 16)
     if not (isinstance(w, list) and len(w) == 2):
@@ -979,6 +1048,8 @@ class C19(Prop):
         # a third-party packet above 64 KiB inside a compound
         out.append('build e0:aa compound 2 rr 0 1 0 custom 199 4 0 0 %s' % ('00' * 65536))
         out += helper_cases()
+        # raw packets configured through call histories and wrappers (PacketBuilder::from, one-member compound)
+        out += [l for l in history_cases(g, n // 8, ['unk'])]
         # the largest packet the length field can announce (65536 words), raw and third-party
         out.append('build e0:aa unk 0 199 3 %s' % ('00' * (262144 - 4)))
         out.append('build e0:aa custom 207 4 1 8 %s' % ('00' * (262144 - 12)))
@@ -1001,6 +1072,16 @@ class C19(Prop):
                 first = ' '.join(m.split()[:4] + ['0'] + m.split()[5:]) if m.startswith('custom') else 'unk 0 ' + ' '.join(m.split()[2:])
                 out.append('build e0:aa compound 3 %s %s %s' % (first, other, last))
                 g.in_compound = False
+        # every proper prefix (and a few over-long versions) of padded and unpadded third-party packets, to the
+        # third-party parser itself: a cut-off packet is Truncated, never anything else
+        for pt, mn in ((199, 4), (242, 12), (207, 20)):
+            for pad in (0, 4, 8):
+                body = g.rawbytes(mn - 4 + 8)
+                total = 4 + len(body) + pad
+                img = bytes([0x80 | (0x20 if pad else 0) | 3, pt]) + (total // 4 - 1).to_bytes(2, 'big') + body + \
+                      (bytes(pad - 1) + bytes([pad]) if pad else b'')
+                for k in list(range(0, total)) + [total, total + 1, total + 4]:
+                    out.append('parse custom:%d:%d %s' % (pt, mn, hx((img + bytes(8))[:k])))
         for m, img in zip(members, h.images(members)):
             if img is None or not m.startswith('custom'):
                 continue
@@ -1012,7 +1093,7 @@ class C19(Prop):
                 out.append('parse custom:%d:%d %s' % (pt, mn, hx(b)))
         return out
     def relevant(self, line, impl, model):
-        if kind_of(line) == 'helper':
+        if kind_of(line) in ('helper', 'hist'):
             return True
         if kind_of(line) == 'build':
             return member_type(line) in ('unk', 'custom') or (member_type(line) == 'compound' and ('custom' in line or 'unk' in line))
@@ -1021,7 +1102,8 @@ class C19(Prop):
         if kind_of(line) == 'helper':
             return obs.get('w')
         if kind_of(line) == 'parse':
-            return (ok_str(obs.get('r')), obs.get('via_packet'))
+            r = obs.get('r', '')
+            return ('ok' if ok_str(r) else ('err' if err_str(r) else 'abnormal'), obs.get('via_packet'))
         return (obs.get('size'), tuple(writes_of(obs.get('writes'))), obs.get('rt.r'), obs.get('rt.via_packet'),
                 tuple(item_shape(x) for x in (S.parse(obs.get('rt.items', '()')) or [])))
     def oracle(self, line, impl, model):
@@ -1030,6 +1112,8 @@ class C19(Prop):
             return helper_oracle(line, impl)
         if kind_of(line) == 'parse':
             r = impl.get('r', '')
+            if not (ok_str(r) or err_str(r)):
+                return ['the third-party parser built on the header-checking helper did not return normally: %s' % r[:80]]
             if ok_str(r) != (model.get('spec.framed') == 'true'):
                 fails.append('header-checking helper %s a string that is %swell framed for the declared type and minimum'
                              % ('accepted' if ok_str(r) else 'rejected', '' if model.get('spec.framed') == 'true' else 'not '))
@@ -1048,6 +1132,8 @@ class C19(Prop):
                 fails.append('write panicked'); continue
             if len(b) >= n and (not r.startswith('(ok') or b[:n] != want):
                 fails.append('written packet %s differs from the RFC image %s' % (b[:n].hex()[:120], want.hex()[:120]))
+        if kind_of(line) == 'hist':
+            return fails
         mt = member_type(line)
         if mt == 'unk':
             if impl.get('rt.r') != model.get('spec.view'):
